@@ -28,6 +28,8 @@ def gen(rng, tier, index):
         return gen_tzx.gen_landing(rng, tier, index)
     if index % 12 == 11:
         return gen_tzx.gen_repatch(rng, tier, index)
+    if index % 12 == 8:
+        return gen_tzx.gen_late(rng, tier, index)
     if index % 3 == 2:
         return gen_tzx.gen_custom(rng, tier, index)
     if index % 3 == 1:
